@@ -83,7 +83,21 @@ class NamespaceGlobal(Namespace[symtable.SymbolTable]):
         self.configs = configs
         self.expr_wraper = utils.get_expr_wrapper(configs)
 
-    def get_assign(self, name: str, value_expr: expr) -> NamedExpr:
+    # True when the test of a while loop is being converted.
+    # The test is converted to a lambda, a walrus would bind a local variable of it
+    in_while_test: bool = False
+
+    def get_assign(self, name: str, value_expr: expr) -> expr:
+        if self.in_while_test:
+            return Call(
+                func=Attribute(
+                    value=Call(func=utils.builtin("globals"), args=[], keywords=[]),
+                    attr="__setitem__",
+                    ctx=Load(),
+                ),
+                args=[Constant(value=name), value_expr],
+                keywords=[],
+            )
         return NamedExpr(target=Name(id=name, ctx=Store()), value=value_expr)
 
     def get_load_name(self, name: str) -> Name:
